@@ -50,3 +50,34 @@ v('c06-replace-tail', ['C06'], ST, "x.extend_from_slice(&s[j..]);", "x.extend_fr
 v('c06-replace-all-resume', ['C06'], ST, "            i = k;\n        }\n        x.extend_from_slice(&s[i..]);\n        SmtString::make(x)", "            i = j + 1;\n        }\n        x.extend_from_slice(&s[i..]);\n        SmtString::make(x)", 'C06.R3/str_replace_all')
 v('c06-suffix-offset', ['C06'], ST, "while i < n && v[i] == w[i + k] {", "while i < n && v[i] == w[i] {", 'C06.R4/vector_suffix')
 v('c06-prefix-swap', ['C06'], ST, "vector_prefix(&s1.s, &s2.s)", "vector_prefix(&s2.s, &s1.s)", 'C06.R1/str_prefixof')
+
+# ---- C09
+v('prefix-C09-to_int', ['C09'], ST, """            let digit = d as i32 - '0' as i32;
+            x = x
+                .checked_mul(10)
+                .expect("Arithmetic overflow in str_to_int")
+                .checked_add(digit)
+                .expect("Arithmetic overflow in str_to_int");""", """            let y = 10 * x + (d as i32 - '0' as i32);
+            if y < x {
+                panic!("Arithmetic overflow in str_to_int");
+            }
+            x = y;""", 'C09.R1/str_to_int')
+v('c09-from_code', ['C09'], ST, "if 0 <= x && x <= MAX_CHAR as i32 {", "if 0 <= x && x < MAX_CHAR as i32 {", 'C09.R2/str_from_code')
+v('c09-digit', ['C09'], ST, "x >= '0' as u32 && x <= '9' as u32", "x >= '0' as u32 && x < '9' as u32", 'C09.R2/char_is_digit')
+v('c09-le-tail', ['C09'], ST, """    if i == max {
+        v.len() <= w.len()
+    } else {
+        v[i] < w[i]
+    }""", """    if i == max {
+        v.len() <= w.len()
+    } else {
+        v[i] > w[i]
+    }""", 'C09.R4/vector_le')
+v('c09-lt-strict', ['C09'], ST, """    if i == max {
+        v.len() < w.len()
+    } else {""", """    if i == max {
+        v.len() <= w.len()
+    } else {""", 'C09.R4/vector_lt')
+v('c09-to_int-base', ['C09'], ST, ".checked_mul(10)", ".checked_mul(16)", 'C09.R3/str_to_int')
+v('c09-to_code', ['C09'], ST, "if s.len() == 1 {\n        s.s[0] as i32", "if s.len() >= 1 {\n        s.s[0] as i32", 'C09.R2/str_to_code')
+v('c09-from_int-sign', ['C09'], ST, "if x >= 0 {\n        SmtString::from(x.to_string())", "if x > 0 {\n        SmtString::from(x.to_string())", 'C09.R2/str_from_int')
